@@ -183,4 +183,26 @@ theorem workdir_under_run {α : Type} (latest artifacts actor : α) (cwd : List 
     simp only [List.foldl_append, fold_names, names_reverse, List.reverse_reverse, List.append_nil]
     simp [step, names_reverse]
 
+/-! ## the role a cast line names -/
+
+/-- a single-actor line (`bob plays doctor`) names its role literally: no plural reading -/
+theorem single_line_role_is_literal {β : Type} (c : CastDef) (roles : List (String × β)) (h : c.mul = none) :
+    roleOfCast c roles = lookup c.role roles := by
+  unfold roleOfCast
+  cases hl : lookup c.role roles <;> simp [h]
+
+/-- a role that exists under the name as written is the one meant, also in a multi-actor line: the plural reading
+(`bob* play 2 doctors` → `doctor`) is only tried when the name as written is no role -/
+theorem exact_role_name_wins {β : Type} (c : CastDef) (roles : List (String × β)) (r : β)
+    (h : lookup c.role roles = some r) : roleOfCast c roles = some r := by
+  unfold roleOfCast; simp [h]
+
+theorem plural_role_name {β : Type} (c : CastDef) (roles : List (String × β)) (n : Nat)
+    (h0 : lookup c.role roles = none) (hm : c.mul = some n) :
+    roleOfCast c roles = lookup (dropPlural c.role) roles := by
+  unfold roleOfCast; simp [h0, hm]
+
+example : roleOfCast ⟨"bob", some 2, "doctors", ""⟩ [("doctor", 7)] = some 7 ∧
+    roleOfCast ⟨"bob", none, "doctors", ""⟩ [("doctor", 7)] = (none : Option Nat) := by decide +kernel
+
 end Shk.C13
